@@ -34,8 +34,28 @@ func init() {
 }
 
 func c18Name(i int) string { return "m" + strconv.Itoa(i) }
+
+// c18NameS: module names under naming scheme k. Scheme 0 is m0, m1, ...; scheme k > 0 puts a letter in
+// front of the number, letters assigned by a permutation derived from k, so that the lexicographic order
+// of the names is unrelated to the module numbers (the code sorts by name in several places).
+// The number stays in the name: c18Idx works for every scheme.
+func c18NameS(k, i int) string {
+	if k == 0 {
+		return c18Name(i)
+	}
+	r := newRng(uint64(k), 77)
+	letters := []byte("abcdefghijklmnopqrstuvwxyz")
+	for a := len(letters) - 1; a > 0; a-- {
+		b := r.intn(a + 1)
+		letters[a], letters[b] = letters[b], letters[a]
+	}
+	return string(letters[i%26]) + strconv.Itoa(i)
+}
 func c18Idx(name string) int {
-	i, err := strconv.Atoi(strings.TrimPrefix(name, "m"))
+	if len(name) < 2 {
+		return -1
+	}
+	i, err := strconv.Atoi(name[1:])
 	if err != nil {
 		return -1
 	}
@@ -65,6 +85,7 @@ func (g c18graph) String() string {
 
 type c18cfg struct {
 	hasInit, initErr, hasSvc []bool
+	names                    int   // naming scheme (c18NameS)
 	opts                     []int // per module: 0 no option, 1 UserInvisibleModule, 2 UserInvisibleTargetableModule, 3 = 1 then 2, 4 = 2 then 1
 }
 
@@ -96,7 +117,7 @@ func (c c18cfg) StringO() string {
 		}
 		o = sb.String()
 	}
-	return c.String() + ";" + o
+	return c.String() + ";" + o + ";" + strconv.Itoa(c.names)
 }
 
 var errC18Init = errors.New("scripted init error")
@@ -138,30 +159,33 @@ func c18BuildL(logger log.Logger, n int, cfg c18cfg, calls [][]int, initLog *[]i
 		}
 		switch {
 		case len(cfg.opts) == 0 || cfg.opts[i] == 0:
-			mm.RegisterModule(c18Name(i), fn)
+			mm.RegisterModule(c18NameS(cfg.names, i), fn)
 		case cfg.opts[i] == 1:
-			mm.RegisterModule(c18Name(i), fn, modules.UserInvisibleModule)
+			mm.RegisterModule(c18NameS(cfg.names, i), fn, modules.UserInvisibleModule)
 		case cfg.opts[i] == 2:
-			mm.RegisterModule(c18Name(i), fn, modules.UserInvisibleTargetableModule)
+			mm.RegisterModule(c18NameS(cfg.names, i), fn, modules.UserInvisibleTargetableModule)
 		case cfg.opts[i] == 3:
-			mm.RegisterModule(c18Name(i), fn, modules.UserInvisibleModule, modules.UserInvisibleTargetableModule)
+			mm.RegisterModule(c18NameS(cfg.names, i), fn, modules.UserInvisibleModule, modules.UserInvisibleTargetableModule)
 		default:
-			mm.RegisterModule(c18Name(i), fn, modules.UserInvisibleTargetableModule, modules.UserInvisibleModule)
+			mm.RegisterModule(c18NameS(cfg.names, i), fn, modules.UserInvisibleTargetableModule, modules.UserInvisibleModule)
 		}
 	}
 	var res []string
 	for _, c := range calls {
 		ds := make([]string, len(c)-1)
 		for j, d := range c[1:] {
-			ds[j] = c18Name(d)
+			ds[j] = c18NameS(cfg.names, d)
 		}
-		res = append(res, c18AddClass(mm.AddDependency(c18Name(c[0]), ds...)))
+		res = append(res, c18AddClass(mm.AddDependency(c18NameS(cfg.names, c[0]), ds...)))
 	}
 	return mm, res
 }
 
 // calls that insert the edges of g: modules in random order, each module's deps possibly split over two calls.
 func c18CallsFor(g c18graph, r *rng) [][]int {
+	if r.chance(1, 2) {
+		return c18EdgeCalls(g, r)
+	}
 	order := make([]int, g.n)
 	for i := range order {
 		order[i] = i
@@ -188,6 +212,39 @@ func c18CallsFor(g c18graph, r *rng) [][]int {
 	return append(calls, late...)
 }
 
+// c18EdgeCalls: one AddDependency call per edge, all edges in one random order (so the modules'
+// dependency slices grow one element at a time and are left with spare capacity).
+func c18EdgeCalls(g c18graph, r *rng) [][]int {
+	var calls [][]int
+	for m, ds := range g.deps {
+		for _, d := range ds {
+			calls = append(calls, []int{m, d})
+		}
+	}
+	for i := len(calls) - 1; i > 0; i-- {
+		j := r.intn(i + 1)
+		calls[i], calls[j] = calls[j], calls[i]
+	}
+	return calls
+}
+
+// every module's DependenciesForModule, as module numbers in ascending order: "1,2/-/0"
+func c18DepsOfAll(mm *modules.Manager, n, scheme int) string {
+	parts := make([]string, n)
+	for i := 0; i < n; i++ {
+		var ix []int
+		for _, d := range mm.DependenciesForModule(c18NameS(scheme, i)) {
+			ix = append(ix, c18Idx(d))
+		}
+		sort.Ints(ix)
+		parts[i] = ints(ix)
+	}
+	if n == 0 {
+		return "-"
+	}
+	return strings.Join(parts, "/")
+}
+
 // the deps lists as AddDependency leaves them after the calls (insertion order)
 func c18Applied(n int, calls [][]int) c18graph {
 	g := c18graph{n: n, deps: make([][]int, n)}
@@ -208,28 +265,16 @@ func ints(xs []int) string {
 	return strings.Join(s, ",")
 }
 
-func c18InitCase(e *env, g c18graph, cfg c18cfg, targets []int, r *rng) {
-	calls := c18CallsFor(g, r)
-	ga := c18Applied(g.n, calls)
-	tr := newTrack("C18.init", ga.String()+";"+cfg.StringO())
-	tr.step(ints(targets))
-	defer tr.done()
-	var initLog []int
-	mm, res := c18Build(g.n, cfg, calls, &initLog, func(i int) services.Service { return services.NewIdleService(nil, nil) })
-	for _, x := range res {
-		if x != "ok" {
-			// an edge of a DAG was rejected: report it as an observation of its own
-			e.emit("C18.init", ga.String()+";"+cfg.StringO(), ints(targets), "-", "add-rejected:"+x, "-", "-")
-			return
-		}
-	}
+// c18InitOnce: one InitModuleServices call; the call log is appended to *initLog by the init functions.
+func c18InitOnce(mm *modules.Manager, cfg c18cfg, targets []int, initLog *[]int) (log string, result string, keys string) {
+	*initLog = nil
 	tn := make([]string, len(targets))
 	for i, t := range targets {
-		tn[i] = c18Name(t)
+		tn[i] = c18NameS(cfg.names, t)
 	}
 	sm, err := mm.InitModuleServices(tn...)
-	// the error names the module: "unrecognised module name: mX" / "error initialising module: mX: <cause>"
-	result := "ok"
+	// the error names the module: "unrecognised module name: X" / "error initialising module: X: <cause>"
+	result = "ok"
 	switch {
 	case err == nil:
 	case strings.HasPrefix(err.Error(), "unrecognised module name: "):
@@ -240,6 +285,37 @@ func c18InitCase(e *env, g c18graph, cfg c18cfg, targets []int, r *rng) {
 	default:
 		result = "other"
 	}
+	var ks []int
+	for k := range sm {
+		ks = append(ks, c18Idx(k))
+	}
+	sort.Ints(ks)
+	return ints(*initLog), result, ints(ks)
+}
+
+func c18InitCase(e *env, g c18graph, cfg c18cfg, targets []int, r *rng) {
+	c18InitCaseCalls(e, g, cfg, targets, c18CallsFor(g, r))
+}
+
+func c18InitCaseCalls(e *env, g c18graph, cfg c18cfg, targets []int, calls [][]int) {
+	ga := c18Applied(g.n, calls)
+	tr := newTrack("C18.init", ga.String()+";"+cfg.StringO())
+	tr.step(ints(targets))
+	defer tr.done()
+	var initLog []int
+	mm, res := c18Build(g.n, cfg, calls, &initLog, func(i int) services.Service { return services.NewIdleService(nil, nil) })
+	for _, x := range res {
+		if x != "ok" {
+			// an edge of a DAG was rejected: report it as an observation of its own
+			e.emit("C18.init", ga.String()+";"+cfg.StringO(), ints(targets), "-", "add-rejected:"+x, "-", "-", "-", "-", "-", "-", "-")
+			return
+		}
+	}
+	// the graph as the manager reports it, before and after; two InitModuleServices on the same manager
+	depsBefore := c18DepsOfAll(mm, g.n, cfg.names)
+	log1, result, keys := c18InitOnce(mm, cfg, targets, &initLog)
+	depsAfter := c18DepsOfAll(mm, g.n, cfg.names)
+	log2, result2, keys2 := c18InitOnce(mm, cfg, targets, &initLog)
 	// visibility flags as the manager reports them
 	vis := mm.UserVisibleModuleNames()
 	sorted := "1"
@@ -253,18 +329,13 @@ func c18InitCase(e *env, g c18graph, cfg c18cfg, targets []int, r *rng) {
 	sort.Ints(visIdx)
 	vb, tb := make([]bool, g.n), make([]bool, g.n)
 	for i := 0; i < g.n; i++ {
-		vb[i], tb[i] = mm.IsUserVisibleModule(c18Name(i)), mm.IsTargetableModule(c18Name(i))
+		vb[i], tb[i] = mm.IsUserVisibleModule(c18NameS(cfg.names, i)), mm.IsTargetableModule(c18NameS(cfg.names, i))
 	}
 	flags := ints(visIdx) + ";" + bits(vb) + ";" + bits(tb) + ";" + sorted
-	if mm.IsUserVisibleModule("nosuch") || mm.IsTargetableModule("nosuch") || mm.IsModuleRegistered("nosuch") || (g.n > 0 && !mm.IsModuleRegistered(c18Name(0))) {
+	if mm.IsUserVisibleModule("nosuch") || mm.IsTargetableModule("nosuch") || mm.IsModuleRegistered("nosuch") || (g.n > 0 && !mm.IsModuleRegistered(c18NameS(cfg.names, 0))) {
 		flags += ";unregistered-module-flags"
 	}
-	var keys []int
-	for k := range sm {
-		keys = append(keys, c18Idx(k))
-	}
-	sort.Ints(keys)
-	e.emit("C18.init", ga.String()+";"+cfg.StringO(), ints(targets), ints(initLog), result, ints(keys), flags)
+	e.emit("C18.init", ga.String()+";"+cfg.StringO(), ints(targets), log1, result, keys, flags, depsBefore, depsAfter, log2, result2, keys2)
 }
 
 // all labelled DAGs on n nodes: deps[i] ∋ j means i depends on j
@@ -350,6 +421,9 @@ func c18RandomDAG(r *rng, n int) c18graph {
 
 func c18RandomCfg(r *rng, n int, allowErr bool) c18cfg {
 	c := c18cfg{hasInit: make([]bool, n), initErr: make([]bool, n), hasSvc: make([]bool, n)}
+	if r.chance(2, 3) {
+		c.names = 1 + r.intn(200)
+	}
 	if r.chance(1, 2) {
 		c.opts = make([]int, n)
 		for i := range c.opts {
@@ -367,6 +441,33 @@ func c18RandomCfg(r *rng, n int, allowErr bool) c18cfg {
 		c.initErr[r.intn(n)] = true
 	}
 	return c
+}
+
+// c18Star: a hub (module 0) with k direct dependencies 1..k added by k separate AddDependency calls (its
+// dependency slice ends up with spare capacity), and t further edges from spokes to leaves k+1..k+t.
+func c18Star(r *rng, k, t int) (c18graph, [][]int) {
+	n := 1 + k + t
+	var calls [][]int
+	for _, d := range c18Shuffled(r, func() []int {
+		o := make([]int, k)
+		for i := range o {
+			o[i] = i + 1
+		}
+		return o
+	}()) {
+		calls = append(calls, []int{0, d})
+	}
+	for j := 0; j < t; j++ {
+		calls = append(calls, []int{1 + r.intn(k), k + 1 + j})
+	}
+	// the spoke->leaf calls anywhere among the hub's calls
+	for i := len(calls) - 1; i > 0; i-- {
+		if r.chance(1, 3) {
+			j := r.intn(i + 1)
+			calls[i], calls[j] = calls[j], calls[i]
+		}
+	}
+	return c18Applied(n, calls), calls
 }
 
 func c18FullCfg(n int) c18cfg {
@@ -621,9 +722,11 @@ func runC18(e *env) {
 					if n == 4 && e.quick && si%3 != int(e.seed%3) {
 						continue
 					}
-					c18InitCase(e, g, c18FullCfg(n), s, r)
+					cfg := c18FullCfg(n)
+					cfg.names = r.intn(6) * r.intn(7) // 0 (plain names) about a third of the time
+					c18InitCase(e, g, cfg, s, r)
 					if len(s) > 1 {
-						c18InitCase(e, g, c18FullCfg(n), c18Shuffled(r, s), r)
+						c18InitCase(e, g, cfg, c18Shuffled(r, s), r)
 					}
 				}
 			})
@@ -646,6 +749,24 @@ func runC18(e *env) {
 					c18InitCase(e, g, cfg, []int{n - 1 - f%n}, r)
 				}
 			})
+		}
+		// (a'') hubs whose dependency slice has spare capacity (k separate AddDependency calls) and whose
+		//       transitive dependencies exactly fit into it, under many naming schemes
+		for rep := 0; rep < 12*e.scale; rep++ {
+			for _, kt := range [][2]int{{3, 1}, {5, 1}, {5, 2}, {5, 3}, {6, 1}, {6, 2}, {7, 1}, {3, 0}, {2, 1}, {3, 2}} {
+				g, calls := c18Star(r, kt[0], kt[1])
+				cfg := c18FullCfg(g.n)
+				cfg.names = 1 + r.intn(200)
+				if rep%4 == 3 {
+					cfg = c18RandomCfg(r, g.n, false)
+				}
+				c18InitCaseCalls(e, g, cfg, []int{0}, calls)
+				all := make([]int, g.n)
+				for i := range all {
+					all[i] = i
+				}
+				c18InitCaseCalls(e, g, cfg, c18Shuffled(r, all), calls)
+			}
 		}
 		// (b) random DAGs up to 12 modules, random targets (with repeats / unknown names), modules without
 		//     init function or without service, init errors
